@@ -222,7 +222,11 @@ where
     ) -> (Result<T, SingleflightError<E>>, bool) {
         // Get the call to use and a handle for retrieving the results
         let (call, created) = self.get_call_or_create(key).await;
+        #[cfg(xet_verif)]
+        crate::verif::point("sf.after_get_call");
         let results_future = call.get_future();
+        #[cfg(xet_verif)]
+        crate::verif::point("sf.after_get_future");
 
         if created {
             // spawn the owner task and wait
@@ -235,6 +239,8 @@ where
                 .map_err(|e| SingleflightError::JoinError(e.to_string()))
                 .and(future_result);
 
+            #[cfg(xet_verif)]
+            crate::verif::async_point("sf.before_remove_call").await;
             // since we created the call, remove it from the map
             if let Err(e) = self.remove_call(key).await {
                 return (Err(e), true);
@@ -336,6 +342,8 @@ where
         // we have a result, so store it into our call and notify all waiters.
         let call = this.call;
         this.got_response.store(true, Ordering::SeqCst);
+        #[cfg(xet_verif)]
+        crate::verif::point("sf.before_complete");
         call.complete(res.clone());
         Poll::Ready(res)
     }
